@@ -188,6 +188,10 @@ pub struct LCase {
     pub lk: LoopKind,
     /// (callback step, operation)
     pub script: Vec<(usize, SOp)>,
+    /// filter closures only: the closure returns `false` (rejects the edge it
+    /// was handed) at every step at which it runs an operation of the script
+    #[serde(default)]
+    pub reject: bool,
 }
 
 impl LCase {
@@ -211,6 +215,9 @@ impl LCase {
             } else {
                 s += &format!("; at callback {} do {}", i, o.show());
             }
+        }
+        if self.reject {
+            s += " and reject the edge (return false)";
         }
         s
     }
@@ -254,15 +261,19 @@ pub fn run_case<F: Fl>(c: &LCase) -> Result<LRun, (String, String)> {
         if F::pval(&a) != default_val(ka) || F::pval(&b) != default_val(kb) {
             *stale.borrow_mut() = Some(format!("callback {}: endpoints of the yielded edge carry wrong values", step));
         }
+        let mut verdict = true;
         for (i, o) in &c.script {
             if *i == step || *i == EVERY {
                 if *i != EVERY || step == 0 {
                     fired.set(fired.get() + 1);
                 }
                 run_sop::<F>(&w, o);
+                if c.reject {
+                    verdict = false;
+                }
             }
         }
-        true
+        verdict
     };
     let r = guarded(|| match c.lk {
         LoopKind::EdgeLoop(which) => {
@@ -618,7 +629,7 @@ pub fn sweep<F: Fl>(job: &Job, out: &mut Out) {
         crate::progress::set_case(|| json!({"kind":"loopx-shape","flavour":F::NAME,"n":p.n,"conns":conns}).to_string());
         for root in 0..p.n as K {
             for lk in loop_kinds(F::DIRECTED, p.n, root) {
-                let base = LCase { n: p.n, conns: conns.clone(), root, lk, script: vec![] };
+                let base = LCase { n: p.n, conns: conns.clone(), root, lk, script: vec![], reject: false };
                 out.stats.inc("evaluations");
                 let c0 = match run_case::<F>(&base) {
                     Ok(r) => r.callbacks,
@@ -638,6 +649,21 @@ pub fn sweep<F: Fl>(job: &Job, out: &mut Out) {
                         }
                         if let Err((class, what)) = run_case::<F>(&ce) {
                             report(out, &ce, class, what);
+                        }
+                    }
+                }
+                // a filter that rejects the very edge at which it changes the graph
+                if matches!(lk, LoopKind::Traversal(cfg) if cfg.meth == Meth::Filter) {
+                    for i in 0..c0 {
+                        for o in sops.iter().filter(|o| matches!(o, SOp::Mut(_))) {
+                            crate::progress::tick();
+                            let cr = LCase { script: vec![(i, *o)], reject: true, ..base.clone() };
+                            out.stats.inc("evaluations");
+                            out.stats.inc("nontrivial");
+                            out.stats.inc("rejecting_filter_scripts");
+                            if let Err((class, what)) = run_case::<F>(&cr) {
+                                report(out, &cr, class, what);
+                            }
                         }
                     }
                 }
